@@ -3,8 +3,8 @@ CONSTANTS
   SlotsPerEpoch = 2
   EpochsPerPeriod = 2
   Forks = {0, 1, 2}
-  Nows = {0, 1, 2, 3, 4, 5, 6, 7, 8, 9, 10, 11}
-  ScheduleEpochs = {0, 2, 4}
+  Nows = {0, 1, 2, 3, 4, 5, 6, 7}
+  ScheduleEpochs = {0, 2}
   Members = {1}
   IndexSets = {{0}}
   Sizes = {8}
